@@ -53,6 +53,17 @@ structure Row where
 /-- one entry of `NetConnections.tmap[kind]`: (file base name, family, type or None) -/
 abbrev TEntry := String × Nat × Option Nat
 
+/-- how `process_inet` / `process_unix` get at the holders of `inode` in the dict `inodes` that `retrieve` hands to
+    every one of them (translator facts `inetLookup` / `unixLookup`) -/
+inductive Lookup
+  | guarded      -- `if inode in inodes: … inodes[inode] … else: <default>`: the dict is never touched
+  | subscript    -- `inodes[inode]` unconditionally: a `defaultdict(list)` INSERTS the missing key (with `[]`), a
+                 -- plain `dict` raises KeyError
+  | get          -- `inodes.get(inode, …)`: the dict is never touched
+  | setdefault   -- `inodes.setdefault(inode, [])`: the missing key is inserted into any dict
+  | unknown      -- a shape the translator cannot name (modelled like `guarded`; `Cfg.LookupGood` fails)
+  deriving DecidableEq, Repr
+
 /-- facts re-derived from the source by the translator -/
 structure Cfg where
   littleEndian : Bool                          -- `_pslinux.LITTLE_ENDIAN`
@@ -95,6 +106,16 @@ structure Cfg where
   /-- the four calls sit under exactly the four expected (family, endianness) tests and each argument is one of the
       expressions the two flags above can express -/
   ntopKnown : Bool := true
+  /-- the dict `retrieve` passes to every `process_inet` / `process_unix` call of one query is ONE mutable object:
+      is it a `defaultdict(list)` (subscripting a missing key creates it) — as built by `get_all_inodes`
+      (`inodes = {}`: false) / by `get_proc_inodes` (`inodes = defaultdict(list)`: true) -/
+  allInodesDefault : Bool := false
+  procInodesDefault : Bool := true
+  /-- both creating expressions are ones the two flags above can express (`{}`, `dict()`, `defaultdict(list)`) -/
+  inodesInitKnown : Bool := true
+  /-- how process_inet / process_unix look the inode up in that dict -/
+  inetLookup : Lookup := .guarded
+  unixLookup : Lookup := .guarded
   -- `_, laddr, raddr, status, _, _, _, _, _, inode = line.split()[:10]`
   inetN : Nat
   iLaddr : Nat
@@ -571,5 +592,182 @@ def netConnectionsE (cfg : Cfg) (fs : ProcFsE) (kind : String) (pid : Option Nat
     match pid with
     | none => retrieveE cfg fs kind none
     | some p => wrapExceptions (retrieveE cfg fs kind (some p))
+
+/-! ### the inode map is ONE dict shared by all the tables of a query
+
+  `retrieve` builds `inodes` once and hands the same object to every `process_inet` / `process_unix` call of
+  `tmap[kind]`, in table order (for `all`: tcp, tcp6, udp, udp6, unix). Python dicts are mutable and
+  `get_proc_inodes` returns a `defaultdict(list)`: a lookup that creates the key it misses changes what every LATER
+  line and every LATER table sees — and the kernel does print the same inode number in different tables (0 for every
+  socket without a `struct socket`: TIME_WAIT / SYN_RECV in net/tcp, not yet accepted connections in net/unix).
+  The functions above read the map without ever changing it; the functions below (`…S`) thread it through every line
+  of every table, with the lookup as the translator finds it in the source (`Cfg.inetLookup`, `Cfg.unixLookup`,
+  `Cfg.allInodesDefault`, `Cfg.procInodesDefault`). **This is what the driver runs.** `Proofs/C11Shared.lean`: with
+  membership-guarded lookups (the code as it is) nothing is ever inserted and `…S` = the functions above, for EVERY
+  file system. -/
+
+/-- the access to `inodes[k]` as the source spells it: the dict afterwards, and the list found
+    (`none` = the `else:` branch / the default of `.get`) -/
+def lookupS (how : Lookup) (dflt : Bool) (m : Inodes) (k : Bytes) :
+    Except Exc (Inodes × Option (List (Nat × Nat))) :=
+  match m.lookup k with
+  | some l => .ok (m, some l)
+  | none =>
+    match how with
+    | .subscript => if dflt then .ok (m ++ [(k, [])], some []) else .error .keyError
+    | .setdefault => .ok (m ++ [(k, [])], some [])
+    | _ => .ok (m, none)
+
+/-- what process_inet makes of the list found: `inodes[inode][0]` under the membership test (IndexError on an empty
+    list); the unguarded spellings have to cope with the empty list: `holders[0] if holders else (None, -1)` -/
+def inetOwner (how : Lookup) : Option (List (Nat × Nat)) → Except Exc (Option Nat × Int)
+  | some ((pid, fd) :: _) => .ok (some pid, (fd : Int))
+  | some [] =>
+    match how with
+    | .guarded | .unknown => .error .indexError
+    | _ => .ok (none, -1)
+  | none => .ok (none, -1)
+
+/-- `pairs = inodes[inode] if inode in inodes else [(None, -1)]`, on the list found -/
+def unixOwnerPairs : Option (List (Nat × Nat)) → List (Option Nat × Int)
+  | some l => l.map (fun pf => (some pf.1, (pf.2 : Int)))
+  | none => [(none, -1)]
+
+/-- body of the `for lineno, line in enumerate(f, 1)` loop of process_inet; the dict comes back with the row -/
+def processInetLineS (cfg : Cfg) (family type : Nat) (dflt : Bool) (m : Inodes) (filterPid : Option Nat)
+    (line : Bytes) : Except Exc (Inodes × Option Raw) :=
+  let toks := splitWs line
+  if toks.length < cfg.inetN then .error .runtimeError
+  else
+  match toks[cfg.iLaddr]?, toks[cfg.iRaddr]?, toks[cfg.iStatus]?, toks[cfg.iInode]? with
+  | some laddr, some raddr, some status, some inode =>
+    match lookupS cfg.inetLookup dflt m inode with
+    | .error e => .error e
+    | .ok (m', found) =>
+      match inetOwner cfg.inetLookup found with
+      | .error e => .error e
+      | .ok (pid, fd) =>
+        if filteredOut filterPid pid then .ok (m', none)
+        else
+          let st : Except Exc String :=
+            if type = cfg.sockStream then
+              match cfg.tcpStatuses.lookup status with
+              | some s => .ok s
+              | none => .error .keyError
+            else .ok cfg.connNone
+          match st with
+          | .error e => .error e
+          | .ok status =>
+            match decodeAddress cfg laddr family with
+            | .error .ipv6Unsupported => (v6Skip cfg).map fun r => (m', r)
+            | .error e => .error e
+            | .ok la =>
+              match decodeAddress cfg raddr family with
+              | .error .ipv6Unsupported => (v6Skip cfg).map fun r => (m', r)
+              | .error e => .error e
+              | .ok ra => .ok (m', some ⟨fd, family, type, la, ra, status, pid⟩)
+  | _, _, _, _ => .error .indexError
+
+def processInetLinesS (cfg : Cfg) (family type : Nat) (dflt : Bool) (filterPid : Option Nat) :
+    Inodes → List Bytes → Except Exc (Inodes × List Raw)
+  | m, [] => .ok (m, [])
+  | m, line :: rest =>
+    match processInetLineS cfg family type dflt m filterPid line with
+    | .error e => .error e
+    | .ok (m', r) =>
+      match processInetLinesS cfg family type dflt filterPid m' rest with
+      | .error e => .error e
+      | .ok (m'', rs) => .ok (m'', r.toList ++ rs)
+
+def processInetS (cfg : Cfg) (fileName : String) (content : Option Bytes) (family type : Nat) (dflt : Bool)
+    (m : Inodes) (filterPid : Option Nat) : Except Exc (Inodes × List Raw) :=
+  match content with
+  | none =>
+    if fileName.toList.getLast? = some '6' then .ok (m, [])
+    else .error .fileNotFound
+  | some c => processInetLinesS cfg family type dflt filterPid m ((linesOf c).drop 1)
+
+def processUnixLineS (cfg : Cfg) (dflt : Bool) (m : Inodes) (filterPid : Option Nat) (line : Bytes) :
+    Except Exc (Inodes × List Raw) :=
+  let tokens := splitWs line
+  if tokens.length < cfg.unixN then
+    if 32 ∉ line then .ok (m, [])
+    else .error .runtimeError
+  else
+  match tokens[cfg.uType]?, tokens[cfg.uInode]? with
+  | some typeTok, some inode =>
+    match lookupS cfg.unixLookup dflt m inode with
+    | .error e => .error e
+    | .ok (m', found) =>
+      match unixPairs cfg line tokens typeTok filterPid (unixOwnerPairs found) with
+      | .error e => .error e
+      | .ok rs => .ok (m', rs)
+  | _, _ => .error .indexError
+
+def processUnixLinesS (cfg : Cfg) (dflt : Bool) (filterPid : Option Nat) :
+    Inodes → List Bytes → Except Exc (Inodes × List Raw)
+  | m, [] => .ok (m, [])
+  | m, line :: rest =>
+    match processUnixLineS cfg dflt m filterPid line with
+    | .error e => .error e
+    | .ok (m', r) =>
+      match processUnixLinesS cfg dflt filterPid m' rest with
+      | .error e => .error e
+      | .ok (m'', rs) => .ok (m'', r ++ rs)
+
+def processUnixS (cfg : Cfg) (content : Option Bytes) (dflt : Bool) (m : Inodes) (filterPid : Option Nat) :
+    Except Exc (Inodes × List Raw) :=
+  match content with
+  | none => .error .fileNotFound
+  | some c => processUnixLinesS cfg dflt filterPid m ((linesOf c).drop 1)
+
+def entryRowsS (cfg : Cfg) (net : String → Option Bytes) (dflt : Bool) (m : Inodes) (pid : Option Nat) (e : TEntry) :
+    Except Exc (Inodes × List Raw) :=
+  if e.2.1 = cfg.afInet ∨ e.2.1 = cfg.afInet6 then
+    match e.2.2 with
+    | some t => processInetS cfg e.1 (net e.1) e.2.1 t dflt m pid
+    | none => .error .keyError
+  else processUnixS cfg (net e.1) dflt m pid
+
+/-- the `for proto_name, family, type_ in self.tmap[kind]` loop: the SAME dict goes into every table, as the
+    previous tables left it -/
+def retrieveEntriesS (cfg : Cfg) (net : String → Option Bytes) (dflt : Bool) (pid : Option Nat) :
+    Inodes → List TEntry → List Row → Except Exc (List Row)
+  | _, [], ret => .ok ret
+  | m, e :: es, ret =>
+    match entryRowsS cfg net dflt m pid e with
+    | .error x => .error x
+    | .ok (m', rows) => retrieveEntriesS cfg net dflt pid m' es ((rows.map (wrapRow pid)).foldl setAdd ret)
+
+/-- `NetConnections.retrieve(kind, pid=None)` with the failures of the two system calls AND the dict threaded through
+    the tables; the dict is `get_proc_inodes`' own `defaultdict` in the per-process form -/
+def retrieveES (cfg : Cfg) (fs : ProcFsE) (kind : String) (pid : Option Nat) :
+    Except Exc (List Row) :=
+  let inodes? : Except Exc Inodes :=
+    match pid with
+    | some p =>
+      match fs.procs.lookup p with
+      | some l => getProcInodesE cfg p l
+      | none => .error .fileNotFound
+    | none => getAllInodesE cfg fs.procs
+  match inodes? with
+  | .error e => .error e
+  | .ok inodes =>
+    if pid.isSome && inodes.isEmpty then .ok []
+    else
+      match cfg.tmap.lookup kind with
+      | none => .error .keyError
+      | some entries =>
+        retrieveEntriesS cfg fs.net (if pid.isSome then cfg.procInodesDefault else cfg.allInodesDefault) pid
+          inodes entries []
+
+/-- the public functions over the shared dict (what the driver runs) -/
+def netConnectionsES (cfg : Cfg) (fs : ProcFsE) (kind : String) (pid : Option Nat) :
+    Except Exc (List Row) :=
+  if kind ∉ cfg.connKinds then .error .valueError
+  else
+    match pid with
+    | none => retrieveES cfg fs kind none
+    | some p => wrapExceptions (retrieveES cfg fs kind (some p))
 
 end Psutil.C11
